@@ -7,24 +7,37 @@ import Mathlib.Tactic.Linarith
 
 namespace Pepit
 
-/-- **fresh objects report the latest solve**: a derived expression that has no cached value
-evaluates, after any history of solves, to its value at the *latest* solution. -/
-theorem fresh_expr_latest (w : World) (s : EvalSt) (h : Nat) (e : EObj) (sol : Solution)
-    (he : w.exs[h]? = some e) (hleaf : e.leaf = Option.none) (hfresh : s.exVal.lookup h = Option.none)
+/-- **derived objects report the latest solve**: a derived expression evaluates, after any history of
+solves and evaluations (of itself or of anything else), to its value at the *latest* solution; before the
+`fix:` commit on `eval()` this held only for objects that had never been evaluated (stale caches) -/
+theorem expr_latest (w : World) (s : EvalSt) (h : Nat) (e : EObj) (sol : Solution)
+    (he : w.exs[h]? = some e) (hleaf : e.leaf = Option.none)
     (hlast : s.last = some sol) (v : Coef) (hv : evalGFRat sol e.d = some v) :
-    ∃ s', evalExpr w s h = .ok (v, s') := by
-  unfold evalExpr
-  simp only [hfresh, he, hleaf, Option.isSome_none, Bool.false_eq_true, if_false, hlast, hv]
-  exact ⟨_, rfl⟩
-
-/-- a cached object keeps reporting its cached number, whatever has been solved since -/
-theorem cached_expr_stale (w : World) (s : EvalSt) (h : Nat) (v : Coef) (hc : s.exVal.lookup h = some v) :
     evalExpr w s h = .ok (v, s) := by
-  unfold evalExpr; simp only [hc]
+  unfold evalExpr
+  simp only [he, hleaf, Option.isSome_none, Bool.false_eq_true, if_false, hlast, hv]
 
-/-! ### the full statement fails: a concrete two-solve history -/
+/-- evaluating never changes the evaluation state: nothing is cached that a later solve could make stale -/
+theorem eval_pure (w : World) (s : EvalSt) (h : Nat) (v : Coef) (s' : EvalSt)
+    (hev : evalExpr w s h = .ok (v, s')) : s' = s := by
+  unfold evalExpr at hev
+  split at hev
+  · cases hev
+  · split at hev
+    · split at hev
+      · cases hev; rfl
+      · cases hev
+    · split at hev
+      · split at hev
+        · cases hev; rfl
+        · cases hev
+      · split at hev
+        · cases hev; rfl
+        · cases hev
 
-/-- one leaf point `x`, the derived expression `x * x` (handle 1; handle 0 is unused) -/
+/-! ### the two-solve history that used to expose the stale cache -/
+
+/-- one leaf point `x`, the derived expression `x * x` (handle 0) -/
 def staleWorld : World :=
   { pts := #[{ leaf := some 0, d := [(0, 1)] }],
     exs := #[{ leaf := Option.none, d := [(EKey.ip 0 0, 1)] }],
@@ -34,7 +47,7 @@ def sol1 : Solution := { G := [[1]], F := [], nP := 1, nE := 0 }
 def sol2 : Solution := { G := [[4]], F := [], nP := 1, nE := 0 }
 
 /-- values of `x * x` read (i) after the first solve, (ii) by the same held object after the
-second solve, (iii) the correct value at the second solution -/
+second solve, (iii) the value at the second solution -/
 def staleHistory : Option (Coef × Coef × Coef) :=
   match evalExpr staleWorld (({} : EvalSt).afterSolve staleWorld sol1) 0 with
   | .ok (v1, s1) =>
@@ -43,9 +56,8 @@ def staleHistory : Option (Coef × Coef × Coef) :=
     | .error _ => Option.none
   | .error _ => Option.none
 
-/-- **`FullC13` is false of the current code**: the held object still answers 1 after the second
-solve, whose solution gives 4. -/
-theorem resolve_full_fails : staleHistory = some (1, 1, 4) := by decide +kernel
+/-- the held object now answers 4 after the second solve (it answered 1 before the fix) -/
+theorem resolve_history_latest : staleHistory = some (1, 4, 4) := by decide +kernel
 
 /-! ### multipliers and leaves after a solve -/
 
@@ -102,5 +114,5 @@ theorem leaf_latest (w : World) (s : EvalSt) (sol : Solution) (h c : Nat) (e : E
 end Pepit
 
 #print axioms Pepit.leaf_latest
-#print axioms Pepit.fresh_expr_latest
-#print axioms Pepit.resolve_full_fails
+#print axioms Pepit.expr_latest
+#print axioms Pepit.resolve_history_latest
